@@ -1170,10 +1170,17 @@ class Printer:
     def struct(self, rec, cname, only=None, skip=(), extra='', embed=()):
         lines = ['%s {' % (cname if cname.startswith('struct ') else 'struct ' + cname)]
         info = []
+        links = self.links = []
         for f in self.all_fields(rec):
             if only is not None and f['name'] not in only: continue
             if f['name'] in skip: continue
             try:
+                if f['name'] in embed:
+                    # the spec models this member as a LINK to another object (embed=): record whether the declaration still is one
+                    # (reference, pointer or shared_ptr) -- ./check turns the list into assertions (a link that became a by-value copy is a
+                    # snapshot taken at construction: later changes of the referent are no longer seen)
+                    q = f['type']['qualType'].strip()
+                    links.append(dict(field=f['name'], type=q, is_link=bool(q.endswith('&') or q.endswith('*') or 'shared_ptr<' in q)))
                 if f['name'] in embed and self.is_ref(f['type']['qualType']):
                     c, k = self.tm.resolve(f['type']['qualType'].rstrip('&').strip())
                     frec = self.tu.record_of(f)
